@@ -26,6 +26,7 @@ EXPLANATION = (
     "take; readers advance by the number of bytes they copied. Not decided: chunk-size arithmetic at every boundary residue, "
     "compression round trip (zstd), relative producer/consumer speed."
     ' (pull-decision-table, closed over consumers) only Session::recv reads the session channel, and every caller of Session::recv accounts for what it takes: End is returned as last or recorded in a flag pull replays, Fail surfaces as an error, a Chunk is returned or staged.'
+    ' The Elapsed of a timeout that only borrows a pinned request future (a heartbeat tick) is not a failure of the request; the Elapsed of a timeout that owns the future is.'
 )
 ASSUMPTIONS = ["std::sync::mpsc and tokio mpsc channels are FIFO and lossless", "zstd decoding inverts zstd encoding"]
 
@@ -499,7 +500,7 @@ def run(facts, R):
         R.check(bool(down) and not any(_ic(b_, i_) for i_, _ in down) and pc_ is not None and pc_[1] <= 1, "one-next-per-chunk", p_, "an svs_call adapter passes the request on once",
                 "this AsyncSvsClient::svs_call can send the request it was given more than once (%d forwarding sites, in a loop: %s): `next` is not idempotent - the server "
                 "answers every copy and each abandoned copy swallows a chunk" % (len(down), any(_ic(b_, i_) for i_, _ in down)), b_.span, "one forwarding call, outside any loop")
-    R.floor("one-next-per-chunk", n_impl, 2, "in-crate implementations of AsyncSvsClient::svs_call")
+    R.floor("one-next-per-chunk", n_impl, 2 if "websocket" in facts.features else 1, "in-crate implementations of AsyncSvsClient::svs_call")
     n_next = 0
     for b in facts.bodies.values():
         if not b.path.startswith("value_stream::") or "register_svs" in b.path:
